@@ -1421,6 +1421,15 @@ func conv(fr *frame, t_dst, t_src types.Type, x value) value {
 		if kd, ok := basicKindOf(t_dst); ok && kd != types.String && kd != types.UnsafePointer {
 			return mkSym(kd, symConvTerm(sx.t, sx.k, kd))
 		}
+		if kd, ok := basicKindOf(t_dst); ok && kd == types.String && kindIsInt(sx.k) {
+			// string(rune): ASCII code points are one byte; others are outside the string model
+			w := fr.i.w
+			wide := tResize(sx.t, SBV64, kindSigned(sx.k))
+			if w.branch(tBVCmp(OpBVULt, wide, mkConst(SBV64, 0x80))) {
+				return mkString([]value{mkSym(types.Uint8, tExtract(wide, 7, 0))})
+			}
+			w.unsupported("string(rune) of a non-ASCII symbolic code point")
+		}
 		fr.i.w.unsupported(fmt.Sprintf("conversion of symbolic %s to %s", t_src, t_dst))
 	}
 	if ss, ok := x.(symstr); ok {
